@@ -78,6 +78,7 @@ def check(h, baseline=None):
     for r in h.reqs:
         if r.invoke is not None and r.exc is None:
             triples.setdefault((r.c, r.peer, r.invoke), []).append(r)
+    ambiguous_clients = set()
     for r in h.reqs:
         # an earlier use of the same (peer, invoke id) that the client gave up on locally (abort / cancel /
         # no outcome) may still be in progress at the server: its frames are indistinguishable from this
@@ -90,6 +91,7 @@ def check(h, baseline=None):
                     ambiguous = True
         if ambiguous:
             w.probe('same_id_reuse_ambiguous')
+            ambiguous_clients.add(r.c)
             continue
         for o in txn.outcomes_of(h, r):
             if o[2] == 'ack':
@@ -112,6 +114,11 @@ def check(h, baseline=None):
     for name in sorted(h.stacks):
         for st in [h.stacks[name]] + [z for z in h.zombies if z.name == name]:
             for (seq, t, peer, inv, kind, detail, data) in st.app.confs:
+                if seq not in attributed and peer is None and name in ambiguous_clients:
+                    # two responses with the same (peer, invoke id) interleaved (legal re-use ambiguity): the reassembled
+                    # octets fail to decode and the stack hands up its anonymous decoding-error substitute
+                    w.probe('anonymous_error_under_ambiguity')
+                    continue
                 if seq not in attributed:
                     viol('C11.c', 'stray-confirmation', 'client %s was handed a %s (peer %s, invoke %s) at seq %d that answers no live request'
                          % (name, kind, peer, inv, seq), kind=kind)
@@ -128,6 +135,12 @@ def check(h, baseline=None):
                  % (sorted(set(inds.items()) - set(binds.items()))[:4], sorted(set(binds.items()) - set(inds.items()))[:4]))
 
     # ---- C11.d: while a server transaction is open the application is indicated at most once
+    # an Abort from the requester delivered to the server closes the server transaction too
+    aborts_rx = {}
+    for f in w.rx:
+        n_, a_ = txn.decode_lan_frame(f['octets'])
+        if a_ is not None and a_['type'] == wire.T_ABORT and not a_['srv']:
+            aborts_rx.setdefault((f['node'], f['src'], a_['invoke']), []).append(f['seq'])
     resp_at = {}
     for e in w.events:
         if e[2] == 'resp':
@@ -141,7 +154,8 @@ def check(h, baseline=None):
                 k = (peer, inv)
                 if k in last:
                     seq1, t1, tok1 = last[k]
-                    answered = any(seq1 < x < seq for x in resp_at.get((name, peer, inv), []))
+                    answered = any(seq1 < x < seq for x in resp_at.get((name, peer, inv), [])) or \
+                        any(seq1 < x < seq for x in aborts_rx.get((name, peer, inv), []))
                     if not answered and t < t1 + app_t - 1e-5:
                         viol('C11.d', 'duplicate-indication', 'server %s was indicated again for (peer %s, invoke %d) at t=%.4f while the transaction opened at t=%.4f was still being processed (no response yet, application timeout %.1fs)'
                              % (name, peer, inv, t, t1, app_t))
@@ -177,7 +191,7 @@ simplify = c04.simplify
 
 def gen_desc(seed, idx):
     rng = rng_for(seed, 'C11', idx)
-    shape = rng.choice(['overlap', 'overlap', 'overlap', 'overlap', 'twoclients', 'twoclients', 'iocb-cancel', 'iocb-cancel', 'wrap'])
+    shape = rng.choice(['overlap', 'overlap', 'overlap', 'twoway', 'twoway', 'twoclients', 'twoclients', 'iocb-cancel', 'iocb-cancel', 'wrap'])
     tout = rng.choice([1000, 3000])
     tseg = rng.choice([500, 1000])
     retries = rng.randint(0, 3)
@@ -220,16 +234,28 @@ def gen_desc(seed, idx):
                   'rq': rng.choice(small + small + big), 'rs': rng.choice(small + small + big),
                   'slow': rng.choice(slowset)}
             cmode = next(s for s in stacks if s['name'] == op['c']).get('mode', 'direct')
-            if cmode == 'direct' and rng.random() < 0.25:
+            if (cmode == 'direct' and rng.random() < 0.25) or (cmode == 'iocb' and rng.random() < 0.3):
                 # application-chosen invoke id, collisions forced
                 if used_forced and rng.random() < 0.6:
                     op['invoke'] = rng.choice(used_forced)
                 else:
-                    op['invoke'] = rng.choice([0, 1, 2, 5, 255, rng.randrange(256)])
+                    op['invoke'] = rng.choice([0, 1, 2, 5, 200, 255, rng.randrange(256)])
                 used_forced.append(op['invoke'])
             ops.append(op)
             if cmode == 'iocb' and rng.random() < (0.4 if shape == 'iocb-cancel' else 0.1):
                 ops.append({'t': round(t + rng.choice([0.0, 0.001, 0.1, tout / 1000.0]), 4), 'op': 'cancel', 'tok': op['tok']})
+    if shape == 'twoway':
+        # both ends are freshly started devices: their own requests to each other use the same invoke ids at the same time,
+        # in opposite directions; big payloads so that both directions are segmented
+        extra = []
+        for op in list(ops):
+            if op['op'] == 'req' and rng.random() < 0.7:
+                tok += 1
+                extra.append({'t': round(op['t'] + rng.choice([0.0, 0.0, 0.001, 0.05]), 4), 'op': 'req', 'c': op['s'], 's': op['c'], 'tok': TOK_BASE + 5000 + tok,
+                              'rq': rng.choice(small + big + big), 'rs': rng.choice(small + big + big), 'slow': rng.choice([0.0, 0.0, 0.05])})
+                op['rq'] = rng.choice([op['rq']] + big)
+                op['rs'] = rng.choice([op['rs']] + big + big)
+        ops += extra
     ops.sort(key=lambda o: o['t'])
     faults = txngen.fault_profile(rng, tout / 1000.0, tseg / 1000.0, allow_none=0.35)
     d = {'prop': 'C11', 'scenario': 'txn', 'seed': H(seed, 'C11run', idx) & 0x7fffffff, 'stacks': stacks,
